@@ -39,6 +39,10 @@ type env15 struct {
 	to       time.Duration
 	allUnits map[string]bool
 	distinct map[string]bool
+
+	forceTok     func() (string, string) // sequence phase: supplies the token of the next command
+	lastObserved bool
+	lastReply    string
 }
 
 func (e *env15) token(class string, inst int, rng *rand.Rand) (string, string, error) {
@@ -247,9 +251,12 @@ func (e *env15) requestLine(v vec15, id, tok string, rng *rand.Rand) (string, st
 
 func (e *env15) runVector(v vec15, inst int, seed int64) error {
 	rng := rand.New(rand.NewSource(seed*31337 + int64(hashStr(v.Cmd+v.Conn+v.Wt+v.Tok)) + int64(inst)*977))
-	tok, tokDesc, err := e.token(v.Tok, inst+int(seed), rng)
-	if err != nil {
-		return err
+	var tok, tokDesc string
+	var err error
+	if e.forceTok == nil {
+		if tok, tokDesc, err = e.token(v.Tok, inst+int(seed), rng); err != nil {
+			return err
+		}
 	}
 	id := ""
 	if v.Cmd != "submit" {
@@ -261,12 +268,16 @@ func (e *env15) runVector(v vec15, inst int, seed int64) error {
 	if err != nil {
 		return fmt.Errorf("snapshot: %w", err)
 	}
-	line, form := e.requestLine(v, id, tok, rng)
 	k, err := ctl.Dial(v.Conn, e.d, e.m, e.to)
 	if err != nil {
 		return fmt.Errorf("cannot open %s session: %w", v.Conn, err)
 	}
 	defer k.Close()
+	if e.forceTok != nil {
+		// sequence phase: the token comes from the sequence (minted at the last moment, or the identical string again)
+		tok, tokDesc = e.forceTok()
+	}
+	line, form := e.requestLine(v, id, tok, rng)
 	if err := k.Send([]byte(line + "\n")); err != nil {
 		return err
 	}
@@ -367,6 +378,7 @@ func (e *env15) runVector(v vec15, inst int, seed int64) error {
 		}
 	}
 	observed := replyEffect || stateEffect
+	e.lastObserved, e.lastReply = observed, trunc(first, 160)
 	e.res.mu.Lock()
 	e.res.Evaluations++
 	e.res.mu.Unlock()
@@ -380,6 +392,9 @@ func (e *env15) runVector(v vec15, inst int, seed int64) error {
 	case observed && !v.Effect:
 		e.res.violate("C15:unauthorized-"+vk, fmt.Sprintf("%s over %s on a %s unit/type with token class %s (%s) took effect (reply %q; %s) but must be refused (%s)",
 			v.Cmd, v.Conn, v.Wt, v.Tok, tokDesc, trunc(first, 120), stateWhat, v.Why), replay)
+	case !observed && v.Effect && v.Tok == "seq_first_use" && strings.Contains(first, "expired"):
+		// the short-lived token ran out before the daemon looked at it (loaded machine): the sequence is not established
+		e.res.count("seq_first_use_too_late")
 	case !observed && v.Effect:
 		e.res.violate("C15:wrongly-refused-"+vk, fmt.Sprintf("%s over %s on a %s unit/type with token class %s (%s) was refused (%q) but the specification lets it through (%s)",
 			v.Cmd, v.Conn, v.Wt, v.Tok, tokDesc, trunc(first, 160), v.Why), replay)
@@ -410,6 +425,192 @@ func (e *env15) runVector(v vec15, inst int, seed int64) error {
 	}
 
 	return nil
+}
+
+// ---------------------------------------------------------------- sequences: one token used again after its expiry
+
+type seqStep struct {
+	Op     string `json:"op"`
+	Cmd    string `json:"cmd"`
+	Conn   string `json:"conn"`
+	Effect bool   `json:"effect"`
+	At     int    `json:"at"`
+}
+
+type seqVec struct {
+	Steps []seqStep `json:"steps"`
+}
+
+func (q seqVec) shape() string {
+	var b []string
+	for _, s := range q.Steps {
+		b = append(b, s.Op)
+	}
+
+	return strings.Join(b, ",")
+}
+
+type seqRun struct {
+	q     seqVec
+	tok   string
+	exp   time.Time
+	ok    bool
+	first seqStep
+	last  seqStep
+}
+
+// mintShort makes a correctly signed token for this node that expires in 3-4 s (exp has a granularity of a second).
+func (e *env15) mint(life time.Duration) (string, time.Time) {
+	exp := time.Now().Add(life).Truncate(time.Second)
+	c := &jwt.RegisteredClaims{ExpiresAt: jwt.NewNumericDate(exp), Audience: []string{e.d.ID}}
+	t, _ := jwt.NewWithClaims(jwt.SigningMethodRS512, c).SignedString(e.k1.Priv)
+
+	return t, exp
+}
+
+func (e *env15) seqUse(st seqStep, tokClass string, tokFn func() (string, string), seed int64) error {
+	v := vec15{Cmd: st.Cmd, Conn: st.Conn, Wt: "verifying", Tok: tokClass, Effect: st.Effect}
+	if st.Effect {
+		v.Why = "valid_token"
+	} else {
+		v.Why = "token_expired_since_its_first_use"
+	}
+	e.forceTok = tokFn
+	defer func() { e.forceTok = nil }()
+	e.res.count("seq_uses")
+
+	return e.runVector(v, 0, seed)
+}
+
+// runSequences replays token life-cycle sequences: [use a, use b] with a long-lived token (both accepted),
+// [use a, tick, use b] and [use a, tick, restart, use b] with a token that lives 3-4 s: accepted while valid, and the
+// identical string refused with no effect once it is at least 1.5 s past its expiry.  The waits are shared by a batch.
+func (e *env15) runSequences(qs []seqVec, seed int64) error {
+	byShape := map[string][]*seqRun{}
+	for _, q := range qs {
+		n := len(q.Steps)
+		if n < 2 || q.Steps[0].Op != "use" || q.Steps[n-1].Op != "use" {
+			continue
+		}
+		byShape[q.shape()] = append(byShape[q.shape()], &seqRun{q: q, first: q.Steps[0], last: q.Steps[n-1]})
+	}
+	for _, shape := range []string{"use,use", "use,tick,use", "use,tick,restart,use"} {
+		runs := byShape[shape]
+		if len(runs) == 0 {
+			continue
+		}
+		life := 4 * time.Second
+		if shape == "use,use" {
+			life = 10 * time.Minute
+		}
+		var latest time.Time
+		for _, r := range runs {
+			for attempt := 0; attempt < 2 && !r.ok; attempt++ {
+				rr := r
+				err := e.seqUse(r.first, "seq_first_use", func() (string, string) {
+					rr.tok, rr.exp = e.mint(life)
+
+					return rr.tok, "valid, short-lived"
+				}, seed)
+				if err != nil {
+					return err
+				}
+				// established only if it was accepted (a refusal of a token that had already expired under load is retried once)
+				r.ok = e.lastObserved
+				if !r.ok && time.Now().Before(r.exp.Add(-300*time.Millisecond)) {
+					break // refused while clearly valid: runVector has reported it
+				}
+			}
+			if !r.ok {
+				e.res.count("seq_not_established")
+
+				continue
+			}
+			if r.exp.After(latest) {
+				latest = r.exp
+			}
+		}
+		if shape != "use,use" {
+			if d := time.Until(latest.Add(1500 * time.Millisecond)); d > 0 {
+				time.Sleep(d)
+			}
+		}
+		if shape == "use,tick,restart,use" {
+			if err := e.d.Restart(40 * time.Second); err != nil {
+				return fmt.Errorf("restart failed: %w", err)
+			}
+			e.res.count("daemon_restarts")
+			if err := e.m.WaitRoute(e.d.ID, 60*time.Second); err != nil {
+				return err
+			}
+			for i := 0; i < 100; i++ { // the mesh path to the control service must work again before the replays
+				k, err := ctl.Dial("mesh", e.d, e.m, 5*time.Second)
+				if err == nil {
+					k.Close()
+
+					break
+				}
+				time.Sleep(200 * time.Millisecond)
+			}
+		}
+		for _, r := range runs {
+			if !r.ok {
+				continue
+			}
+			rr := r
+			class := "expired_replay"
+			if shape == "use,use" {
+				class = "valid_reuse"
+			} else if shape == "use,tick,restart,use" {
+				class = "expired_replay_after_restart"
+			}
+			if err := e.seqUse(r.last, class, func() (string, string) {
+				return rr.tok, fmt.Sprintf("the identical string accepted before for %s over %s; now %.1f s past its expiry", rr.first.Cmd, rr.first.Conn, time.Since(rr.exp).Seconds())
+			}, seed); err != nil {
+				return err
+			}
+			e.res.count("seq_" + class)
+			if !e.lastObserved && class != "valid_reuse" {
+				e.res.count("seq_replays_refused")
+			}
+			e.distinct[fmt.Sprintf("seq|%s|%s|%s|%s|%s", shape, r.first.Cmd, r.first.Conn, r.last.Cmd, r.last.Conn)] = true
+		}
+	}
+
+	return nil
+}
+
+// pickSequences: quick keeps the same-command replays (5 commands x 2 connection kinds), a submit token replayed for
+// cancel / release / results, a few seeded extra pairs, two reuse-while-valid and two after-restart sequences.
+func pickSequences(qs []seqVec, seed int64) []seqVec {
+	var out []seqVec
+	rng := rand.New(rand.NewSource(seed))
+	extra := map[int]bool{}
+	for len(extra) < 4 {
+		extra[rng.Intn(len(qs))] = true
+	}
+	for i, q := range qs {
+		n := len(q.Steps)
+		a, b := q.Steps[0], q.Steps[n-1]
+		same := a.Cmd == b.Cmd && a.Conn == b.Conn
+		fromSubmit := a.Cmd == "submit" && a.Conn == b.Conn && (b.Cmd == "cancel" || b.Cmd == "release" || b.Cmd == "results")
+		switch q.shape() {
+		case "use,tick,use":
+			if same || fromSubmit || extra[i] {
+				out = append(out, q)
+			}
+		case "use,use":
+			if (same && a.Cmd == "results" && a.Conn == "tcp") || (a.Cmd == "submit" && b.Cmd == "cancel" && a.Conn == "mesh" && b.Conn == "mesh") {
+				out = append(out, q)
+			}
+		case "use,tick,restart,use":
+			if (same && a.Cmd == "results" && a.Conn == "mesh") || (a.Cmd == "submit" && b.Cmd == "release" && a.Conn == "tcp" && b.Conn == "tcp") {
+				out = append(out, q)
+			}
+		}
+	}
+
+	return out
 }
 
 func seedGhostUnit(dir, id string) error {
@@ -476,6 +677,8 @@ func cmdC15(args []string) {
 	seed := fs.Int64("seed", 1, "seed")
 	inst := fs.Int("instances", 1, "concrete instances per vector")
 	replayFile := fs.String("replay", "", "replay file of a previous run")
+	seqFile := fs.String("seqs", "", "NDJSON token life-cycle sequences from TLC (part c15seq)")
+	seqAll := fs.Bool("seqall", false, "replay every sequence (default: the quick selection)")
 	subset := fs.Int("subset", 0, "0 = all vectors; k = a seeded stratified subset: k rotating token classes in every (command, connection, work type) cell, plus valid and absent in the protected cells")
 	_ = fs.Parse(args)
 	res := &Result{Counters: map[string]int{}}
@@ -491,6 +694,7 @@ func cmdC15(args []string) {
 
 		return a.Cmd+a.Wt+a.Conn+a.Tok < b.Cmd+b.Wt+b.Conn+b.Tok
 	})
+	var replaySeqs []seqVec
 	if *subset > 0 && *replayFile == "" {
 		vecs = stratify15(vecs, *subset, *seed)
 	}
@@ -508,6 +712,21 @@ func cmdC15(args []string) {
 		}
 		vecs = []vec15{rp.Replay.Vector}
 		*inst = 6
+		if t := rp.Replay.Vector.Tok; t == "expired_replay" || t == "expired_replay_after_restart" || t == "valid_reuse" || t == "seq_first_use" {
+			// a violation of the sequence phase: replay it as the sequence "same command while valid, then again"
+			a := seqStep{Op: "use", Cmd: rp.Replay.Vector.Cmd, Conn: rp.Replay.Vector.Conn, Effect: true}
+			b := a
+			b.Effect = t == "valid_reuse" || t == "seq_first_use"
+			steps := []seqStep{a, {Op: "tick"}, b}
+			if t == "expired_replay_after_restart" {
+				steps = []seqStep{a, {Op: "tick"}, {Op: "restart"}, b}
+			}
+			if b.Effect {
+				steps = []seqStep{a, b}
+			}
+			replaySeqs = []seqVec{{Steps: steps}, {Steps: steps}}
+			vecs = nil
+		}
 	}
 	dir := filepath.Join(*work, "c15")
 	_ = os.RemoveAll(dir)
@@ -606,6 +825,27 @@ func cmdC15(args []string) {
 			}
 		}
 	}
-	res.Distinct = len(e.distinct)
 	res.add("vectors", len(vecs))
+	if len(replaySeqs) > 0 {
+		if err := e.runSequences(replaySeqs, *seed); err != nil {
+			res.inconclusive("environment failure in the sequence replay: %v", err)
+		}
+	}
+	if *seqFile != "" && *replayFile == "" {
+		qs, err := readNDJSON[seqVec](*seqFile)
+		if err != nil {
+			res.inconclusive("cannot read sequences: %v", err)
+
+			return
+		}
+		sort.Slice(qs, func(i, j int) bool { return fmt.Sprint(qs[i]) < fmt.Sprint(qs[j]) })
+		if !*seqAll {
+			qs = pickSequences(qs, *seed)
+		}
+		res.add("sequences", len(qs))
+		if err := e.runSequences(qs, *seed); err != nil {
+			res.inconclusive("environment failure in the sequence phase: %v", err)
+		}
+	}
+	res.Distinct = len(e.distinct)
 }
